@@ -494,7 +494,7 @@ def ensure_driver():
 def run(ctx):
     ctx.rule = ("layouts = (boundary point set, 4-12 sensors strictly inside its convex hull in general position, 0-3 outside; "
                 "'tie' stream: dyadic boundary with sensors exactly on a boundary vertex / edge midpoint); each layout is run "
-                "as given (extent 1e-2..1e4) and as a permuted, a translated (offset <= 2e5 x extent, i.e. UTM-sized coordinates of a small site) and a uniformly scaled copy; "
+                "as given (extent 1e-2..3e7) and as a permuted, a translated (offset <= 2e5 x extent, i.e. UTM-sized coordinates of a small site) and a uniformly scaled copy; "
                 "non-trivial = at least one sensor culled or at least one unbounded Voronoi cell clipped by the hull; "
                 "Monte-Carlo cases = (4 generator/spatial pairs) x (1-8 generators, 1-200 realisations, generic/zero/mixed sigma, "
                 "weights random or the Voronoi weights of a layout); distinct by input hash")
@@ -503,7 +503,7 @@ def run(ctx):
                     "numpy Generator.normal: the harness re-draws the same variates from an equally seeded generator",
                     "fractions.Fraction parsing of the driver's exact num/den answers"]
     ctx.assumptions += ["unbounded cells are closed with far points at 1e6 x the boundary extent (repaired defect C14-a: the radius used to be "
-                        "1e6 coordinate units, wrong for large-coordinate nearly linear arrays); generated extents are <= 1e4",
+                        "1e6 coordinate units, wrong for large-coordinate nearly linear arrays); generated extents are 1e-2 .. 3e7",
                         "retained sensors in general position (no three collinear hull sensors, no duplicates): Qhull's joggle/"
                         "precision handling is outside the model"]
     ctx.partial_clauses += [
@@ -525,8 +525,8 @@ def run(ctx):
         base = gen_layout(rng, kind)
         if base is None:
             continue
-        ext = float(rng.choice([1e-2, 1.0, 1.0, 37.5, 1e3, 1e4]))
-        off = float(rng.choice([0.0, 0.0, 1.0, 1e2, 1e4]))
+        ext = float(rng.choice([1e-2, 1.0, 1.0, 37.5, 1e3, 1e4, 1e6, 3e7]))    # 1e6, 3e7: a site surveyed in millimetres / a regional array in metres
+        off = float(rng.choice([0.0, 0.0, 1.0, 1e2, 1e4])) if ext <= 1e4 else float(rng.choice([0.0, 1.0]))
         if kind == "tie":
             ext = float(rng.choice([0.25, 1.0, 64.0, 1024.0]))           # keeps the on-boundary sensors exactly on it
             off = float(rng.choice([0.0, 8.0, 4096.0]))
